@@ -137,12 +137,12 @@ theorem run_viols_mono (sh : AllocShape) : ∀ (evs : List Ev) (r : Run), r.viol
 /-- two runs that differ only in the limit -/
 def SameBut (L' : Nat) (r r' : Run) : Prop :=
   r'.st.size = r.st.size ∧ r'.st.limit = some L' ∧ r'.live = r.live ∧ r'.viols = r.viols ∧
-  r'.underflows = r.underflows ∧ r'.overflows = r.overflows
+  r'.underflows = r.underflows
 
 theorem step_sameBut (sh : AllocShape) (L L' : Nat) (hLL : L ≤ L') (r r' : Run) (hl : r.st.limit = some L)
     (h : SameBut L' r r') (e : Ev) (hv : (step sh r e).viols = r.viols) :
     SameBut L' (step sh r e) (step sh r' e) ∧ (step sh r e).st.limit = some L := by
-  obtain ⟨hsz, hl', hlive, hviol, hun, hov⟩ := h
+  obtain ⟨hsz, hl', hlive, hviol, hun⟩ := h
   cases e with
   | alloc id bytes =>
     simp only [step] at hv ⊢
@@ -154,12 +154,12 @@ theorem step_sameBut (sh : AllocShape) (L L' : Nat) (hLL : L ≤ L') (r r' : Run
       · rw [hl'] at hn; cases hn
       · rw [hl'] at hl2; injection hl2 with hl2; subst hl2; rw [hsz] at hgt2; omega
       · rw [ha, ha2]
-        exact ⟨⟨by simp [hsz], by simpa using hl', by simp [hlive], hviol, hun, hov⟩, by simpa using hl⟩
+        exact ⟨⟨by simp [hsz], by simpa using hl', by simp [hlive], hviol, hun⟩, by simpa using hl⟩
   | drop id =>
     simp only [step]
     rw [hlive]
     cases hlk : r.live.lookup id with
-    | none => exact ⟨⟨hsz, hl', hlive, hviol, hun, hov⟩, hl⟩
+    | none => exact ⟨⟨hsz, hl', hlive, hviol, hun⟩, hl⟩
     | some rec =>
       simp only
       rcases deallocate_spec r.st rec with ⟨h0, hd⟩ | ⟨h0, hle, hd⟩ | ⟨h0, hle, hd⟩ <;>
@@ -167,19 +167,15 @@ theorem step_sameBut (sh : AllocShape) (L L' : Nat) (hLL : L ≤ L') (r r' : Run
         first
           | (exfalso; omega)
           | (rw [hd, hd']
-             exact ⟨⟨by simp [hsz], by simpa using hl', rfl, hviol, by simp [hun], hov⟩, by simpa using hl⟩)
+             exact ⟨⟨by simp [hsz], by simpa using hl', rfl, hviol, by simp [hun]⟩, by simpa using hl⟩)
   | preflight n =>
     simp only [step, canAllocate, hl, hl'] at hv ⊢
     rw [hsz]
-    by_cases hof : r.st.size + n ≥ usizeBound
-    · simp only [hof, if_true]
-      exact ⟨⟨hsz, hl', hlive, hviol, hun, by simp [hov]⟩, hl⟩
-    · simp only [hof, if_false] at hv ⊢
-      by_cases hgt : r.st.size + n > L
-      · simp [hgt] at hv
-      · have hgt' : ¬ r.st.size + n > L' := by omega
-        simp only [hgt, hgt', if_false]
-        exact ⟨⟨hsz, hl', hlive, hviol, hun, hov⟩, hl⟩
+    by_cases hgt : min (r.st.size + n) (usizeBound - 1) > L
+    · simp [hgt] at hv
+    · have hgt' : ¬ min (r.st.size + n) (usizeBound - 1) > L' := by omega
+      simp only [hgt, hgt', if_false]
+      exact ⟨⟨hsz, hl', hlive, hviol, hun⟩, hl⟩
 
 theorem run_sameBut (sh : AllocShape) (L L' : Nat) (hLL : L ≤ L') :
     ∀ (evs : List Ev) (r r' : Run), r.st.limit = some L → SameBut L' r r' →
